@@ -11,6 +11,7 @@ import (
 	"fmt"
 	"sort"
 	"strings"
+	"time"
 
 	"github.com/cosmos72/gomacro/go/types"
 	"github.com/cosmos72/gomacro/go/typeutil"
@@ -62,6 +63,10 @@ func newC28MapWorld() *c28MapWorld {
 	add("uint8", w.atoms["uint8"])
 	add("interface{m()} of package a/p", mk("interface{m@1 func()()}", 0))
 	add("interface{m()} of package b/p", mk("interface{m@2 func()()}", 0))
+	// a third member of each colliding family: the unexported name WITHOUT package (nil). Buckets of three entries
+	// (a hole can be in the middle), and an identity that must keep nil apart from every real package
+	add("struct{a int} without package", mk("struct{a@0 int}", 0))
+	add("interface{m()} without package", mk("interface{m@0 func()()}", 0))
 	n := len(mw.keys)
 	mw.same = make([][]bool, n)
 	for i := range mw.same {
@@ -86,7 +91,7 @@ func (mw *c28MapWorld) selfCheck() string {
 			bad = append(bad, fmt.Sprintf("k%d/k%d are not identical-but-distinct", p[0], p[1]))
 		}
 	}
-	for _, p := range [][2]int{{2, 3}, {6, 7}} {
+	for _, p := range [][2]int{{2, 3}, {6, 7}, {2, 8}, {3, 8}, {6, 9}, {7, 9}} {
 		if mw.same[p[0]][p[1]] || hs[p[0]] != hs[p[1]] {
 			bad = append(bad, fmt.Sprintf("k%d/k%d are not hash-colliding non-identical (hash %d %d)", p[0], p[1], hs[p[0]], hs[p[1]]))
 		}
@@ -95,17 +100,26 @@ func (mw *c28MapWorld) selfCheck() string {
 }
 
 func (mw *c28MapWorld) ops() []c28Op {
+	all := make([]int, len(mw.keys))
+	for k := range all {
+		all[k] = k
+	}
+	return mw.opsFor(all)
+}
+
+// opsFor: the operation alphabet restricted to some keys.
+func (mw *c28MapWorld) opsFor(keys []int) []c28Op {
 	var ops []c28Op
-	for k := range mw.keys {
+	for _, k := range keys {
 		ops = append(ops, c28Op{Op: "set", Key: k, Val: 1}, c28Op{Op: "set", Key: k, Val: 2})
 	}
-	for k := range mw.keys {
+	for _, k := range keys {
 		ops = append(ops, c28Op{Op: "at", Key: k})
 	}
-	for k := range mw.keys {
+	for _, k := range keys {
 		ops = append(ops, c28Op{Op: "delete", Key: k})
 	}
-	for k := range mw.keys {
+	for _, k := range keys {
 		ops = append(ops, c28Op{Op: "iterdel", Key: k})
 	}
 	ops = append(ops, c28Op{Op: "len"}, c28Op{Op: "iterate"}, c28Op{Op: "keys"})
@@ -403,6 +417,7 @@ func c28MapCheck(c *core.Ctx) {
 			c.Violation("C28|map|nil-map", fmt.Sprintf("nil *Map: read-only operation panics: %v", p), c28Case{Kind: "map"})
 		}
 		// ---- BFS with state deduplication
+		tb := time.Now()
 		type node struct{ path []c28Op }
 		seen := map[string]bool{"": true}
 		frontier := []node{{nil}}
@@ -431,6 +446,7 @@ func c28MapCheck(c *core.Ctx) {
 			}
 			frontier = next
 		}
+		c.Count("ms_map_bfs_shard0", int(time.Since(tb)/time.Millisecond)) // reporting only
 		c.States(states)
 		c.Transitions(trans)
 		c.Traces(trans)
@@ -438,38 +454,47 @@ func c28MapCheck(c *core.Ctx) {
 		c.Set("map_ops", len(ops))
 		c.Set("map_keys", mw.names)
 	}
-	// ---- un-merged sequences (all of them, no state merging), shared hasher, sharded over the workers
+	// ---- un-merged sequences (all of them, no state merging), shared hasher, sharded over the workers:
+	// every sequence of length <= 4 over the full alphabet; thorough adds every sequence of length 5 over the alphabet
+	// restricted to the first 8 keys, and over the alphabet restricted to the two slices and the three colliding structs
 	ud := c.Pick(4, 5)
 	shared := typeutil.MakeHasher()
-	idx := 0
 	seqs := 0
-	path := make([]c28Op, 0, ud)
-	var rec func()
-	rec = func() {
-		if len(path) == ud {
-			return
+	unmerged := func(ops []c28Op, depth int) {
+		idx := 0
+		path := make([]c28Op, 0, depth)
+		var rec func()
+		rec = func() {
+			if len(path) == depth {
+				return
+			}
+			for _, op := range ops {
+				path = append(path, op)
+				if len(path) == 2 {
+					idx++
+					if c.Mine(idx) && c.Expired() {
+						path = path[:len(path)-1]
+						return
+					}
+				}
+				if len(path) < 2 || c.Mine(idx) {
+					if len(path) >= 2 {
+						mw.runSeq(c, path, &shared, false) // prefixes are sequences of their own: observe after the last step
+						seqs++
+					}
+					rec()
+				}
+				path = path[:len(path)-1]
+			}
 		}
-		for _, op := range ops {
-			path = append(path, op)
-			if len(path) == 2 {
-				idx++
-				if c.Mine(idx) && c.Expired() {
-					path = path[:len(path)-1]
-					return
-				}
-			}
-			if len(path) < 2 || c.Mine(idx) {
-				if len(path) >= 2 {
-					mw.runSeq(c, path, &shared, false) // prefixes are sequences of their own: observe after the last step
-					seqs++
-				}
-				rec()
-			}
-			path = path[:len(path)-1]
+		if !c.Expired() {
+			rec()
 		}
 	}
-	if !c.Expired() {
-		rec()
+	unmerged(ops, 4)
+	if ud > 4 {
+		unmerged(mw.opsFor([]int{0, 1, 2, 3, 4, 5, 6, 7}), ud)
+		unmerged(mw.opsFor([]int{0, 1, 2, 3, 8}), ud)
 	}
 	c.Count("map_unmerged_sequences", seqs)
 	c.Traces(seqs)
